@@ -74,6 +74,7 @@ class Profile:
     min_host_events: int = 1
     causal_sync: bool = False                   # shrink kernels so that every synchronising call returns after the work it waits for
     p_sync_touch: float = 0.0                   # a sync record ends exactly when a kernel of its stream starts
+    more_inner_annotations: bool = False        # user annotations with operator children inside operators (events without graph nodes inside the nest)
     n_pad: Tuple[int, int] = (0, 0)              # extra small host ops on their own thread (pushes row ids past 127 / 32767)
 
 
@@ -140,6 +141,8 @@ class Gen:
                 self.next_corr += rng.choice([1, 1, 2, 7])
             else:
                 r = rng.random()
+                if p.more_inner_annotations and not leaf and depth > 0 and 0.45 <= r < 0.7:
+                    r = 0.75
                 if r < 0.7:
                     ev["cat"] = "cpu_op"
                     ev["name"] = rng.choice(CPU_OPS)
@@ -560,6 +563,6 @@ _reg(Profile(name="kseq", tmax_choices=(24, 40, 110, 600), n_ranks=(1, 2), n_thr
              kernel_names=("gemm", "relu", "ncclKernel_AllReduce", "Memcpy DtoD (Device -> Device)", "bn")))
 _reg(Profile(name="cp", tmax_choices=(20, 40, 110, 600), n_ranks=(1, 2), n_threads=(1, 2), max_depth=4, p_zero_dur=0.0, p_launch=0.55, p_mem_launch=0.3,
              p_missing_kernel=0.1, p_orphan_kernel=0.1, n_steps=(0, 3), p_kernel_zero=0.03, p_same_ts_as_launch=0.1, p_sync=0.6, causal_sync=True,
-             p_sync_touch=0.8, n_streams=(1, 3), epoch_choices=(0, 1000000)))
+             p_sync_touch=0.8, more_inner_annotations=True, n_streams=(1, 3), epoch_choices=(0, 1000000)))
 _reg(Profile(name="cp_tiny", tmax_choices=(10, 14, 20), n_ranks=(1, 1), n_threads=(1, 2), max_depth=3, p_zero_dur=0.0, p_launch=0.6, p_mem_launch=0.3,
-             n_steps=(0, 2), p_kernel_zero=0.05, p_same_ts_as_launch=0.3, p_sync=0.7, causal_sync=True, p_sync_touch=0.8, n_streams=(1, 2), epoch_choices=(0,)))
+             n_steps=(0, 2), p_kernel_zero=0.05, p_same_ts_as_launch=0.3, p_sync=0.7, causal_sync=True, p_sync_touch=0.8, more_inner_annotations=True, n_streams=(1, 2), epoch_choices=(0,)))
